@@ -185,6 +185,23 @@ def def_ptype(kind, cls, policy_arg):
     }[kind]
 
 
+CUSTOM_RTTI = r"""
+template<class T, class = void> struct has_vf_id : std::false_type {};
+template<class T> struct has_vf_id<T, std::void_t<decltype(T::vf_static_id)>> : std::true_type {};
+struct custom_rtti : RTTI_BASE {
+    template<class T> static type_id static_type() {
+        if constexpr (has_vf_id<T>::value) return T::vf_static_id; else return 1;
+    }
+    template<class T> static type_id dynamic_type(const T& obj) {
+        if constexpr (has_vf_id<T>::value) return obj.vf_type(); else return 1;
+    }
+    template<class Stream> static void type_name(type_id t, Stream& s) { s << "type#" << t; }
+    static type_id type_index(type_id t) { return t; }
+    template<typename D, typename B> static D dynamic_cast_ref(B&& obj) { return dynamic_cast<D>(obj); }
+};
+struct pol : default_policy::rebind<pol>::replace<policy::rtti, custom_rtti> {};
+"""
+
 POLICIES = {
     # name -> (definition, uses std handler API?)
     "default": None,
@@ -192,6 +209,10 @@ POLICIES = {
     "indirect": "struct pol : default_policy::rebind<pol>, policy::basic_indirect_vptr<pol> {};",
     "throw": "struct pol : default_policy::rebind<pol>::replace<policy::error_handler, policy::throw_error> {};",
     "debug": "struct pol : policy::debug::rebind<pol> {};",
+    # user-supplied RTTI (the custom RTTI tutorial's pattern): integer ids carried by a virtual function
+    "custom": CUSTOM_RTTI.replace("RTTI_BASE", "policy::rtti"),
+    # the same with ids that are only known when update runs
+    "deferred": CUSTOM_RTTI.replace("RTTI_BASE", "policy::deferred_static_rtti"),
 }
 
 
@@ -205,6 +226,7 @@ def emit(r, rng, name, policy, reg_style, flavours, leave_out=None):
     if POLICIES[policy]:
         L.append(POLICIES[policy])
     P = "pol" if pol else "default_policy"
+    deferred_defs = ["static std::size_t g_id_counter = 0;"]
     # classes
     for c in range(r.n):
         bases = ", ".join(("virtual " if vb[b] else "") + cname(b) for b in r.bases[c])
@@ -212,6 +234,13 @@ def emit(r, rng, name, policy, reg_style, flavours, leave_out=None):
         final_kw = " final" if is_leaf and rng.random() < (0.7 if c == leave_out else 0.4) else ""
         L.append("struct %s%s%s {" % (cname(c), final_kw, (" : " + bases) if bases else ""))
         L.append("    int tag%d = %d;" % (c, 1000 + c))
+        if policy == "custom":
+            L.append("    static inline std::size_t vf_static_id = %d;" % (10 + 3 * c))
+        elif policy == "deferred":
+            L.append("    static std::size_t vf_static_id;")
+            deferred_defs.append("std::size_t %s::vf_static_id = ++g_id_counter * 5;" % cname(c))
+        if policy in ("custom", "deferred"):
+            L.append("    %sstd::size_t vf_type() const %s{ return vf_static_id; }" % ("virtual " if not r.bases[c] else "", "" if not r.bases[c] else "override "))
         if not r.bases[c]:
             L.append("    virtual ~%s() {}" % cname(c))
         if r.abstract[c]:
@@ -346,6 +375,8 @@ def emit(r, rng, name, policy, reg_style, flavours, leave_out=None):
                 body = probe + ["        g_next_ptr = (void*)next;", "        return %d;" % (100 * mi + di)]
                 L.append("    static int fn(%s) {\n%s\n    }\n};" % (plist, "\n".join(body)))
                 L.append("static M%d::add_definition<cont_%d_%d> reg_%d_%d;" % (mi, mi, di, mi, di))
+    if policy == "deferred":
+        L += deferred_defs  # defined after every registration object: unknown until update runs
     # ---- main
     main = ["int main() {"]
     handler_api = rng.choice(["member", "set_error_handler", "set_method_call_error_handler"]) if policy == "default" else "member"
@@ -744,7 +775,9 @@ def programs(tier, seed, focus=None):
     out = []
     n = 10 if tier == "quick" else 90
     styles = ["one", "split", "direct", "mixed", "macros"]
-    pols = ["default", "default", "map", "indirect", "throw", "debug"]
+    pols = ["default", "default", "map", "indirect", "throw", "debug", "custom", "deferred"]
+    if focus == "C10":
+        pols = ["custom", "deferred"]
     for k in range(n):
         r = gen_registry(rng, 8 if tier == "quick" else 10)
         policy = pols[k % len(pols)]
